@@ -13,8 +13,14 @@
                                                 `envSolve` factorises and `prepareProjectEquations()` leaves in the base class
     C10_repeated_columns_dense_sums             a repeated column index on the dense path: the coefficients ADD up
     C10_repeated_columns_uncorrelated_agree     … in an uncorrelated block of `Homogenization::run`: every entry kept, same sum
-    C10_repeated_columns_correlated_differ      … in a CORRELATED block of `Homogenization::run`: the LAST one wins — NEG witness,
-                                                the two paths homogenise different matrices (what `RowsOK`/`nodupRows` protects)
+    C10_repeated_columns_agree                  … in a CORRELATED block of `Homogenization::run` (since /repo 6d0f7107 the gather
+                                                loop is `T(i, perm[c]) += *b++`): `T` holds the same SUM as the dense path, no
+                                                no-repeat hypothesis; on the witness `Ex.repNp` both paths produce the SAME
+                                                homogenised system.  (Before the fix the last value won: this was the NEG theorem
+                                                `C10_repeated_columns_correlated_differ`.)
+  What remains: the LS-side MODEL of the envelope solver's homogenisation, `Ls.Env.homogenize` on `Problem.dense`
+  (`Lemmas/Ls/AdjDense.rowDense`, built with `=`), still reads a repeated column as last-write-wins (labelled `example`
+  below), so `hom_run_eq_homogenize` / `C10_sparse_path_is_homogenization_run` keep their `nodupRows` / `RowsOK` hypothesis.
   Proofs: `Lemmas/HomRunBridge.lean`, `Lemmas/HomEnvBridge.lean`, `Props/C01/InputGap.lean`, `Props/C01/NetFacade.lean`,
   `Props/C03/Net.lean`.
 -/
@@ -182,33 +188,84 @@ theorem C10_repeated_columns_uncorrelated_agree (np : NetProblem K) (mat : SMat 
 
 end repeated
 
-/-- **sparse path, CORRELATED block — NEG witness** (`Ex.repNp`, `Ex.repMat`, `Ex.repCov`; exact over `Rat`, every pivot
-    is 1): one cluster `[[1,1],[1,2]]` (band 1), `m0 = 1`, rows `[(1,−1),(1,+1)]` (column 1 stored TWICE) and `[(2,1)]`,
-    `rhs = (1,2)`.  The two paths get the same input and both accept, but
-      dense  (`+=`, then `prepareProjectEquations()`): homogenises `A = [[0,0],[0,1]]` to `[[0,0],[0,1]]`;
-      sparse (`Homogenization::run`, gather `T(i,perm[c]) = a` — the LAST value wins): homogenises `A = [[1,0],[0,1]]` to
-             the rows `[(1,1)]`, `[(1,−1),(2,1)]`, i.e. `[[1,0],[−1,1]]` (so does `Env.homogenize`);
-    the right-hand side is `(1,1)` on both.  This is exactly the case `RowsOK` (`Nodup` of the columns of a row) /
-    `SMat.nodupRows` excludes in `C01_net_prepare`, `C03_net_homogenisations_agree`, `C10_homogenization_run`. -/
-theorem C10_repeated_columns_correlated_differ :
-    -- the same input
-    (@SMat.toRows Rat ⟨0⟩ Ex.repMat = Ex.repNp.rows.toList.map Array.toList ∧
+section repeatedCorr
+variable {K : Type} [Field K] [LinearOrder K] [IsStrictOrderedRing K] [SqrtFn K]
+-- priority below `instScalarRat`: the witness part is over `Rat` with its own `Scalar` instance (as in `Ex.rep_agree`)
+attribute [local instance 900] scalarOfField
+
+/-- **sparse path, CORRELATED block** (`width != 0`; /repo 6d0f7107: `T.set_zero(); … T(i, perm[c]) += *b++`).
+    General part, NO hypothesis on repeated columns (only what the C++ relies on anyway: `perm` all zero and of size
+    `cols+1` on entry, column indices in `1..cols`):
+    (gather)  after the gather loop column `j` of `T` is `colOf mat off dim c`, `c = occ[j-1]` the `j`-th distinct column:
+              entry `r` is the SUM of all coefficients row `off+r+1` stores with column `c` (`Cov.gather_spec`) — the number
+              `Net.denseA` holds (`C10_repeated_columns_dense_sums`) when the rows are the network's rows;
+    (scatter) the output row `i` of the block reads densely as entry `i` of the forward-substituted dense column.
+    Witness part (`Ex.repNp`, `Ex.repMat`, `Ex.repCov`; exact over `Rat`, every pivot is 1): one cluster `[[1,1],[1,2]]`
+    (band 1), `m0 = 1`, rows `[(1,−1),(1,+1)]` (column 1 stored TWICE) and `[(2,1)]`, `rhs = (1,2)`.  The two paths get the
+    same input, both accept, and produce the SAME homogenised system: `Ad = [[0,0],[0,1]]`, the rows of `out.sm` are `[]`
+    (the exact zero is dropped) and `[(2,1)]` — densely the same matrix, entry by entry — and `out.pr = bd = (1,1)`. -/
+theorem C10_repeated_columns_agree (np : NetProblem K) (mat : SMat K) (nonz : Array K) (tab : Array Nat)
+    (off dim cols : Nat) (perm : Array Nat)
+    (hperm0 : ∀ c, perm.getD c 0 = 0) (hpsize : perm.size = cols + 1)
+    (hcols : ∀ i, 1 ≤ i → i ≤ dim → ∀ e ∈ @SMat.rowEntries K ⟨0⟩ mat (off + i), 1 ≤ e.1 ∧ e.1 ≤ cols) :
+    -- gather
+    (∀ j, 1 ≤ j → j ≤ (Cov.blockOcc mat off dim).length →
+      (@Cov.gatherOf K (Cov.fieldScalar K SqrtFn.sq) mat off dim (Cov.blockOcc mat off dim).length perm).T.getD (j - 1) #[]
+        = @Cov.colOf K _ _ ⟨0⟩ mat off dim ((Cov.blockOcc mat off dim).getD (j - 1) 0) ∧
+      ∀ r, r < dim →
+        ((@Cov.gatherOf K (Cov.fieldScalar K SqrtFn.sq) mat off dim (Cov.blockOcc mat off dim).length perm).T.getD
+            (j - 1) #[]).getD r 0
+          = Cov.denseRow (@SMat.rowEntries K ⟨0⟩ mat (off + (r + 1))) ((Cov.blockOcc mat off dim).getD (j - 1) 0) ∧
+        ∀ c, (Cov.blockOcc mat off dim).getD (j - 1) 0 = c + 1 → off + r < np.m → c < np.n →
+          @SMat.rowEntries K ⟨0⟩ mat (off + (r + 1)) = (np.rows.getD (off + r) #[]).toList →
+          ((@Cov.gatherOf K (Cov.fieldScalar K SqrtFn.sq) mat off dim (Cov.blockOcc mat off dim).length perm).T.getD
+              (j - 1) #[]).getD r 0
+            = Dn.mget (Net.denseA np) (off + r) c) ∧
+    -- scatter
+    (∀ i, 1 ≤ i → i ≤ dim → ∀ c,
+      Cov.denseRow ((@Cov.Hom.corrBlock K (Cov.fieldScalar K SqrtFn.sq) mat nonz tab off dim
+          (Cov.blockOcc mat off dim).length perm).1.getD (i - 1) []) c =
+        if c ∈ Cov.blockOcc mat off dim then
+          (@Cov.sweepTab K (Cov.fieldScalar K SqrtFn.sq) nonz tab off dim (@Cov.colOf K _ _ ⟨0⟩ mat off dim c)).getD (i - 1) 0
+        else 0) ∧
+    -- the witness: the same input …
+    ((@SMat.toRows Rat ⟨0⟩ Ex.repMat = Ex.repNp.rows.toList.map Array.toList ∧
       (Net.cofs Ex.repNp).map (fun C => (C.dim, C.band, C.buf)) = [(2, 1, #[1, 1, 2])] ∧
       Ex.repCov.Built [⟨2, 1, #[1, 1, 2]⟩] [] ∧ (Ex.repMat.rows, Ex.repMat.cols) = (Ex.repNp.m, Ex.repNp.n)) ∧
-    -- dense path
-    (Net.denseA Ex.repNp = #[#[0, 0], #[0, 1]] ∧
-      (Net.prepare Ex.repNp).toOption.map (fun h => (h.Ad, h.bd)) = some (#[#[0, 0], #[0, 1]], #[1, 1])) ∧
-    -- sparse path
-    ((Cov.Hom.run (Cov.bdTol : Rat) Ex.repMat Ex.repCov Ex.repNp.rhs).toOption.map
-        (fun o => (@SMat.toRows Rat ⟨0⟩ o.sm, o.pr)) = some ([[(1, 1)], [(1, -1), (2, 1)]], #[1, 1]) ∧
-      (Env.homogenize (Net.toProblem Ex.repNp)).toOption.map (fun h => (h.At, h.bt))
-        = some (#[#[1, 0], #[-1, 1]], #[1, 1])) ∧
-    -- they differ
-    (∃ hh out, Net.prepare Ex.repNp = .ok hh ∧
-      Cov.Hom.run (Cov.bdTol : Rat) Ex.repMat Ex.repCov Ex.repNp.rhs = .ok out ∧
-      Dn.mget hh.Ad 0 0 = 0 ∧ Cov.denseRow (@SMat.rowEntries Rat ⟨0⟩ out.sm 1) 1 = 1 ∧
-      Dn.mget hh.Ad 1 0 = 0 ∧ Cov.denseRow (@SMat.rowEntries Rat ⟨0⟩ out.sm 2) 1 = -1) :=
-  ⟨Ex.rep_same_input, Ex.rep_dense_path, Ex.rep_sparse_path, Ex.rep_differ⟩
+    -- … the same homogenised system on both paths
+      (Net.denseA Ex.repNp = #[#[0, 0], #[0, 1]] ∧
+        (Cov.Hom.run (Cov.bdTol : Rat) Ex.repMat Ex.repCov Ex.repNp.rhs).toOption.map
+          (fun o => (@SMat.toRows Rat ⟨0⟩ o.sm, o.pr)) = some ([[], [(2, 1)]], #[1, 1])) ∧
+      ∃ hh out, Net.prepare Ex.repNp = .ok hh ∧
+        Cov.Hom.run (Cov.bdTol : Rat) Ex.repMat Ex.repCov Ex.repNp.rhs = .ok out ∧
+        hh.Ad = #[#[0, 0], #[0, 1]] ∧
+        (∀ s c, s < 2 → c < 2 →
+          Cov.denseRow (@SMat.rowEntries Rat ⟨0⟩ out.sm (s + 1)) (c + 1) = Dn.mget hh.Ad s c) ∧
+        out.pr = hh.bd) := by
+  refine ⟨fun j hj1 hj2 => ?_, fun i h1 h2 c => corrBlock_row_dense mat nonz tab off dim cols perm hperm0 hpsize hcols i h1 h2 c,
+    Ex.rep_same_input, ⟨Ex.rep_dense_path.1, Ex.rep_sparse_path⟩, Ex.rep_agree⟩
+  obtain ⟨hcol, hent⟩ := gather_col_dense mat off dim cols perm hperm0 hpsize hcols j hj1 hj2
+  refine ⟨hcol, fun r hr => ⟨hent r hr, fun c hc hi hcn hrow => ?_⟩⟩
+  rw [hent r hr, hc, hrow]
+  refine (denseA_entry_sum np (off + r) c hi hcn ?_).symm
+  intro cv hcv
+  rw [← hrow] at hcv
+  exact (hcols (r + 1) (by omega) (by omega) cv hcv).1
+
+end repeatedCorr
+
+/-- what REMAINS of the difference (an evaluated instance, not a theorem about the code): the LS-side model of the envelope
+    solver's homogenisation, `Ls.Env.homogenize` on `Problem.dense` (`AdjDense.rowDense`, built with `=`), still reads the
+    repeated column of `Ex.repNp` as last-write-wins and homogenises `[[1,0],[0,1]]` to `[[1,0],[−1,1]]`, while
+    `Homogenization::run` (and `prepareProjectEquations()`) now give `[[0,0],[0,1]]`.  This is the case `RowsOK` /
+    `SMat.nodupRows` still excludes in `hom_run_eq_homogenize`, `C03_net_homogenisations_agree`, `C10_homogenization_run`. -/
+example :
+    (Env.homogenize (Net.toProblem Ex.repNp)).toOption.map (fun h => (h.At, h.bt))
+        = some (#[#[1, 0], #[-1, 1]], #[1, 1]) ∧
+    (Net.prepare Ex.repNp).toOption.map (fun h => (h.Ad, h.bd)) = some (#[#[0, 0], #[0, 1]], #[1, 1]) ∧
+    (Cov.Hom.run (Cov.bdTol : Rat) Ex.repMat Ex.repCov Ex.repNp.rhs).toOption.map
+        (fun o => (@SMat.toRows Rat ⟨0⟩ o.sm, o.pr)) = some ([[], [(2, 1)]], #[1, 1]) :=
+  ⟨Ex.rep_ls_model_last_wins, Ex.rep_dense_path.2, Ex.rep_sparse_path⟩
 
 /-! ### non-vacuity of the two positive statements about repeated columns (over ℝ) -/
 
@@ -230,6 +287,27 @@ example :
         / (#[2] : Array ℝ).getD (0 + (1 - 1)) 0 :=
   (C10_repeated_columns_uncorrelated_agree _ _ _ 0 0 1 1 0 (by decide) (by decide) (by decide) (by decide) rfl
     (by simp)).2
+
+/-- the general part of `C10_repeated_columns_agree` APPLIED to a 1-row correlated block that stores column 1 twice (`−1`,
+    `+1`): its hypotheses hold, and the gathered `T(1,1)` is the dense path's entry `−1 + 1` -/
+example :
+    ((@Cov.gatherOf ℝ (Cov.fieldScalar ℝ SqrtFn.sq) (SMat.ofRows 1 1 [[(1, -1), (1, 1)]] []) 0 1
+        (Cov.blockOcc (SMat.ofRows 1 1 [[(1, -1), (1, 1)]] [] : SMat ℝ) 0 1).length (Array.replicate 2 0)).T.getD (1 - 1) #[]).getD 0 0
+      = Dn.mget (Net.denseA (⟨1, 1, #[#[(1, -1), (1, 1)]], #[0], [], 1, []⟩ : NetProblem ℝ)) (0 + 0) 0 := by
+  have hocc : Cov.blockOcc (SMat.ofRows 1 1 [[(1, -1), (1, 1)]] [] : SMat ℝ) 0 1 = [1] := by
+    rfl
+  have h := (C10_repeated_columns_agree (⟨1, 1, #[#[(1, -1), (1, 1)]], #[0], [], 1, []⟩ : NetProblem ℝ)
+    (SMat.ofRows 1 1 [[(1, -1), (1, 1)]] []) #[] #[] 0 1 1 (Array.replicate 2 0)
+    (by intro c; simp [Array.getD]) (by simp)
+    (by
+      intro i h1 h2 e he
+      have : i = 1 := by omega
+      subst this
+      have r1 : @SMat.rowEntries ℝ ⟨0⟩ (SMat.ofRows 1 1 [[(1, -1), (1, 1)]] []) (0 + 1) = [(1, -1), (1, 1)] := rfl
+      rw [r1] at he
+      simp at he
+      rcases he with rfl | rfl <;> simp)).1 1 (by decide) (by rw [hocc]; decide)
+  exact (h.2 0 (by decide)).2 0 (by rw [hocc]; rfl) (by decide) (by decide) rfl
 
 /-- `C10_sparse_path_is_homogenization_run` APPLIED to the correlated network `npR` (`Ex.npRMat`, `Ex.npRCov`: its sparse
     rows and its two cofactor blocks `[[4,2],[2,10]]`, `[4]` as `SparseMatrix` + `BlockDiagonal`): `Env.HoldsProblem` holds,
